@@ -127,19 +127,19 @@ var fieldKinds = map[string][]string{
 	"ForPhrase.Init":         {"AssignStmt", "ExprStmt"},
 }
 var fieldExtra = map[string][]string{
-	"CompositeLit.Elts":      {"KeyValueExpr"},
-	"ComprehensionExpr.Elt":  {"KeyValueExpr"},
-	"SliceLit.Elts":          {"ElemEllipsis"},
-	"MatrixLit.Elts":         {"ElemEllipsis"},
-	"Field.Type":             {"Ellipsis"},
-	"ArrayType.Len":          {"Ellipsis"},
-	"CallExpr.Args":          {"LambdaExpr", "LambdaExpr2", "MatrixLit"},
-	"ExprStmt.X":             {"CallExpr"},
-	"ForPhrase.X":            {"RangeExpr"},
-	"IndexExpr.Index":        {"RangeExpr"},
-	"DomainTextLitEx.Args":   {"BasicLit"},
-	"StringLitEx.Parts":      {"BinaryExpr"},
-	"Rule.RetProc":           {"LambdaExpr2"},
+	"CompositeLit.Elts":     {"KeyValueExpr"},
+	"ComprehensionExpr.Elt": {"KeyValueExpr"},
+	"SliceLit.Elts":         {"ElemEllipsis"},
+	"MatrixLit.Elts":        {"ElemEllipsis"},
+	"Field.Type":            {"Ellipsis"},
+	"ArrayType.Len":         {"Ellipsis"},
+	"CallExpr.Args":         {"LambdaExpr", "LambdaExpr2", "MatrixLit"},
+	"ExprStmt.X":            {"CallExpr"},
+	"ForPhrase.X":           {"RangeExpr"},
+	"IndexExpr.Index":       {"RangeExpr"},
+	"DomainTextLitEx.Args":  {"BasicLit"},
+	"StringLitEx.Parts":     {"BinaryExpr"},
+	"Rule.RetProc":          {"LambdaExpr2"},
 }
 
 // Options steer the builder.
